@@ -14,7 +14,7 @@ RULE = (
     "cases: generated enum/flag declarations (1-6 members; explicit values as literals or expressions over earlier "
     "members; gaps, duplicates/aliases, zero, negatives for signed enums; any integer underlying type incl. 24/48/128-bit; "
     "named and anonymous; new token parser and legacy parser) x underlying values - ALL values for 8-bit types (16-bit: "
-    "all in thorough, 2048 sampled in quick), boundary + pseudo-random above - x contexts {scalar, fixed array, "
+    "all for a quarter of the declarations in thorough, else 8192 sampled; 2048 sampled in quick), boundary + pseudo-random above - x contexts {scalar, fixed array, "
     "null-terminated array, bit-field, struct field} x {compiled, interpreted} x endian. Oracle: reference auto-numbering "
     "(enum previous+1 from 0; flag from 1, then 2^bit_length(previous)) with expressions evaluated by the independent "
     "evaluator; E(bytes).value == int.from_bytes; dumps returns the bytes; E(v) == v; E(v) == E(w) <=> v == w; members of "
@@ -86,7 +86,13 @@ def decl_case(draw):
     if not members:
         members = [[names[0], None, None]]
     anon = (not legacy) and draw(st.integers(0, 5)) == 0
+    shadow = None
+    if not legacy and draw(st.integers(0, 2)) == 0:
+        # a global constant (a #define, or a member exported by an earlier anonymous enum) carrying a member's name:
+        # inside the declaration the name means the earlier member
+        shadow = [draw(st.sampled_from([m_[0] for m_ in members])), draw(st.integers(0, 200)), draw(st.sampled_from(["define", "anonymous-enum"]))]
     return {
+        "shadow": shadow,
         "kind": kind, "base": base, "members": members, "name": None if anon else "E", "legacy": legacy,
         "compiled": draw(st.booleans()), "endian": draw(st.sampled_from("<>")), "salt": draw(st.integers(0, 1 << 30)),
         "layout": draw(st.sampled_from(["oneline", "multiline", "trailing-comma"])),
@@ -110,11 +116,11 @@ def _values(case, size, signed, tier):
     lo, hi = (-(1 << (bits - 1)), (1 << (bits - 1)) - 1) if signed else (0, (1 << bits) - 1)
     if case["kind"] == "flag" and signed and not case.get("include_negative"):
         lo = 0  # see ASSUMPTIONS / KF-FLAG (the known-finding reproducer sets include_negative)
-    if size == 1 or (size == 2 and tier == "thorough"):
+    if size == 1 or (size == 2 and tier == "thorough" and case["salt"] % 4 == 0):
         return list(range(lo, hi + 1))
     vals = {lo, lo + 1, 0, 1, 2, 3, hi, hi - 1, hi >> 1, (hi >> 1) + 1} | {v for _, v in case["_expected"]} | {v + 1 for _, v in case["_expected"]}
     x = 0x9E3779B97F4A7C15 ^ case["salt"]
-    for _ in range(2048 if size == 2 else 64 if tier == "quick" else 400):
+    for _ in range((2048 if tier == "quick" else 8192) if size == 2 else 64 if tier == "quick" else 400):
         x = (x * 6364136223846793005 + 1442695040888963407) & ((1 << 128) - 1)
         span = hi - lo + 1
         vals.add(lo + (x % span))
@@ -133,6 +139,11 @@ def run_case(case, ctx, tier=None):
     text = render(case, name)
     other = render(dict(case, members=[[n, None, None] for n, _, _ in case["members"]]), "Other") if name else ""
     cs = m.cstruct(endian=case["endian"])
+    if case.get("shadow"):
+        sn, sv, how = case["shadow"]
+        pre = f"#define {sn} {sv}\n" if how == "define" else f"enum {{ {sn} = {sv} }};\n"
+        text = pre + text
+        ctx.count("decl:global-constant-named-like-a-member:" + how)
     kw = {"deftype": m.cstruct.DEF_LEGACY} if case["legacy"] else {}
     r = lib(cs.load, text + other, compiled=case["compiled"], **kw) if not case["legacy"] else lib(cs.load, text + other, **kw)
     case.pop("_expected", None)
